@@ -87,7 +87,7 @@ theorem last_step_lazy {P : Par} (hP : P.Ok) {frame : List Nat} {w : W} {c0 : Cl
   generalize hpkt : Server.scPkt (Server.getUser s' P.u) 0 = pkt at hw3down hs2 hw3
   obtain ⟨hlen2, hdn, hus, huf⟩ := ack_hdr (x := Server.getUser s' P.u) (y := Server.getUser s' P.u) hpkt.symm
     (by rw [hal.iseq]; omega) (by rw [hal.ifrag]; have := h.ready.hf; omega) rfl hal.stat.x.oseq hal.stat.x.ofrag
-  generalize hrq : (Client.Rq.mk (pkt.length : Int) H.id H.type 0 (H.name.headD 0) pkt) = rq
+  generalize hrq : (Client.Rq.mk (pkt.length : Int) H.id (answerType H.type) 0 (H.name.headD 0) pkt) = rq
   have hdl : Client.tunnelDns c rq = Client.upstream (ackBook c) (Client.decodeHdr pkt) [] false 2 := by
     have := tunnelDns_dataless_lazy c rq
       (by subst hrq; show Client.notData c (H.name.headD 0) = false
